@@ -18,7 +18,8 @@
 //
 // Schedule points without touching the header: common/lockfree_queue.h is compiled UNCHANGED, but while it is being included
 // the tokens memory_order_acquire / _release / _acq_rel / _seq_cst / _relaxed are macros that first call vtr::hook(kind) and
-// then yield the same order as a run-time value (GCC then uses the strongest order, never a weaker one).  Every atomic load /
+// then yield the same order as a run-time value (GCC then uses the strongest order, never a weaker one), and memcpy (the slot
+// copies of the batch and SPSC queues) is a macro that calls vtr::hook(H_DATA) before the copy and in its middle.  Every atomic load /
 // store / RMW / fence of the header that names its order is therefore preceded by a schedule point (the two index CAS of the
 // MPMC queue use the default order and have none; the acquire loads right before them have).  A hook (a) delays the calling OS
 // thread by a small seeded random amount (bounded spin / sched_yield; it never blocks and never switches photon threads), which
@@ -83,6 +84,15 @@ inline int hook(int kind) {
     perturb(kind);
     return 0;
 }
+// memcpy of the batch / SPSC queues: a schedule point before the copy and one in its middle (on a 4-byte boundary)
+inline void* hooked_memcpy(void* d, const void* s, size_t n) {
+    hook(H_DATA);
+    size_t h = (n / 2) & ~(size_t)3;
+    ::memcpy(d, s, h);
+    if (n > 4) hook(H_DATA);
+    ::memcpy((char*)d + h, (const char*)s + h, n - h);
+    return d;
+}
 inline int o_acq() { hook(H_ACQ); return (int)std::memory_order_acquire; }
 inline int o_rel() { hook(H_REL); return (int)std::memory_order_release; }
 inline int o_acqrel() { hook(H_ACQREL); return (int)std::memory_order_acq_rel; }
@@ -95,7 +105,9 @@ inline int o_rlx() { hook(H_RLX); return (int)std::memory_order_relaxed; }
 #define memory_order_acq_rel memory_order(vtr::o_acqrel())
 #define memory_order_seq_cst memory_order(vtr::o_seq())
 #define memory_order_relaxed memory_order(vtr::o_rlx())
+#define memcpy(d, s, n) vtr::hooked_memcpy(d, s, n)
 #include <photon/common/lockfree_queue.h>
+#undef memcpy
 #undef memory_order_acquire
 #undef memory_order_release
 #undef memory_order_acq_rel
